@@ -2,9 +2,11 @@
 
 Decides: the C3 input shape at every `MROMerge` call site, the error
 discipline (ValueError -> MROError -> mro-error), first-match attribute lookup
-along `cls.mro`, the duplicate-base test, the head/tail step of
-`MergeSequences` and that merge results are consumed in order.  Does NOT decide
-that `MergeSequences` terminates with CPython's answer on every hierarchy.
+along `cls.mro`, the duplicate-base test and that the bases row reaches it with
+its repetitions intact, the head/tail step of `MergeSequences`, that its
+candidate scan starts at the first row in every round, and that merge results
+are consumed in order.  Does NOT decide that `MergeSequences` terminates with
+CPython's answer on every hierarchy.
 """
 import ast
 
@@ -30,9 +32,39 @@ EXPLANATION = (
     "the C3 step in MergeSequences takes the head of a row, rejects it when "
     "it occurs in the tail [1:] of another row and removes it from row "
     "heads; R10.7 the result of every MROMerge call is consumed in order. "
-    "R10.4 (builtin hierarchy table) is decided by R2.2.  Candidate selection "
-    "order inside MergeSequences beyond the head/tail step, and the "
-    "element-wise content of row maps, are not decided.")
+    "R10.4 (builtin hierarchy table) is decided by R2.2.  R10.9 C3 takes the "
+    "FIRST row with an acceptable head: the loop that picks the candidate "
+    "iterates the rows parameter itself (for row in rows / enumerate(rows) / "
+    "range(len(rows)) with rows[i]), the candidate is the head of the row the "
+    "scan is at, the rows are only ever rebound to a per-row map of "
+    "themselves, and no path through the scan body reaches the next row with "
+    "an accepted candidate (may-reach analysis: the candidate assignment is "
+    "live until it is reset to None or the scan is left by break); a scan "
+    "whose iteration expression depends on a local assigned inside the "
+    "enclosing `while True` (resuming where the last round stopped), or that "
+    "reverses / slices / sorts the rows, is a violation, anything else an "
+    "analysis error.  R10.10 on every class-creation path the row of direct "
+    "bases keeps its repetitions until Class.compute_mro's duplicate test: "
+    "the row handed to pytd.Class(bases=) in pyi Definitions.build_class "
+    "(through classdef.get_bases), the list PyTDClass.bases() builds from "
+    "pytd_cls.bases, the row compute_mro tests and merges (through "
+    "abstract_utils.get_mro_bases), the bases make_class hands to the "
+    "InterpreterClass constructor (through _filter_out_metaclasses, "
+    "_process_base_class, _expand_generic_protocols) and the bases "
+    "__build_class__ collects from the call are followed back to their source "
+    "through reaching definitions and into the package's own helper "
+    "functions; only multiplicity-preserving steps are accepted (copies, "
+    "slices, concatenation, element-wise maps, comprehension filters and "
+    "accumulator loops whose keep/skip conditions look at the current element "
+    "only); set/frozenset/dict.fromkeys/OrderedSet/Dedup/Counter, set and "
+    "dict comprehensions, and keep/skip conditions that test membership, "
+    ".count or .index against the elements kept so far (or any other state "
+    "that changes from element to element) are violations; unknown calls are "
+    "analysis errors.  Blind spots: the element-wise content of row maps; "
+    "pytd visitors that rewrite Class.bases between the parser and PyTDClass "
+    "(load_pytd resolution, pep484.ConvertTypingToNative zips old and new "
+    "bases one to one) are not followed; the rewrite engine's class creation "
+    "is covered by R10.8 only.")
 ASSUMPTIONS = [
     "expressions naming the direct bases (`cls.bases`, `_GetClass(t, "
     "lookup_ast).bases`) are pure: two textually equal occurrences whose free "
@@ -41,6 +73,15 @@ ASSUMPTIONS = [
     "an order-preserving element-wise map",
     "the rewrite engine's SimpleClass.mro is checked for C3 shape only; its "
     "class-creation path has no mro-error reporting to anchor R10.2/R10.5 on",
+    "R10.10: a keep/skip condition that does not mention the accumulator, the "
+    "source row, or a name mutated in the loop without being re-initialised at "
+    "the top of each iteration decides per element and cannot tell a first "
+    "occurrence from a repetition; conditions whose only effect is to raise "
+    "reject the class instead of dropping a base and are not counted",
+    "R10.10: attribute reads (props.bases, self.pytd_cls.bases, args.posargs) "
+    "and argument-less method calls (self.bases()) are the sources of a row; "
+    "the five anchored sites are connected by those attributes, which is not "
+    "itself checked",
 ]
 
 MRO = "pytype/pytd/mro.py"
@@ -915,18 +956,29 @@ def _tail_slice(node):
   return (lo, up, st)
 
 
+def _candidate_assign(fn):
+  """`cand = row[0]`: the subscript assignment to the name that the reject arm
+  resets to None."""
+  reset = {n.targets[0].id for n in walk_no_nested(fn)
+           if isinstance(n, ast.Assign) and len(n.targets) == 1
+           and isinstance(n.targets[0], ast.Name)
+           and isinstance(n.value, ast.Constant) and n.value.value is None}
+  cand_assigns = [n for n in walk_no_nested(fn) if isinstance(n, ast.Assign)
+                  and len(n.targets) == 1 and isinstance(n.targets[0], ast.Name)
+                  and n.targets[0].id in reset
+                  and isinstance(n.value, ast.Subscript)]
+  if len(cand_assigns) != 1:
+    raise AnalysisError(
+        "MergeSequences: candidate assignment `cand = seq[0]` not recognised")
+  return cand_assigns[0]
+
+
 @rule("R10.6", "C10", floor=3)
 def r10_6(ctx):
   """C3 step: candidate = head of a row, rejected iff in another row's tail."""
   mod = get_module(ctx, MRO)
   fn = mod.func("MergeSequences")
-  cand_assigns = [n for n in walk_no_nested(fn) if isinstance(n, ast.Assign)
-                  and len(n.targets) == 1 and isinstance(n.targets[0], ast.Name)
-                  and isinstance(n.value, ast.Subscript)]
-  if len(cand_assigns) != 1:
-    raise AnalysisError(
-        "MergeSequences: candidate assignment `cand = seq[0]` not recognised")
-  ca = cand_assigns[0]
+  ca = _candidate_assign(fn)
   cand = ca.targets[0].id
   ctx.check(_const_index(ca.value, 0), "MergeSequences:candidate-is-head", MRO,
             ca.lineno, f"the merge candidate is `{src(ca.value)}`; C3 takes "
@@ -1183,6 +1235,584 @@ def r10_8(ctx):
             {"raises_MROError": 0})
 
 
+# -- R10.9: the candidate scan starts at the first row in every round -----------------
+
+_PURE_BUILTINS = {"range", "len", "enumerate", "reversed", "sorted", "list",
+                  "tuple", "iter", "zip"}
+
+
+def _row_map_of(node, rows):
+  """[[.. for e in r ..] for r in rows] / [f(r) for r in rows]: a rebinding of
+  the rows that keeps their number and order."""
+  return (isinstance(node, ast.ListComp) and len(node.generators) == 1
+          and not node.generators[0].ifs
+          and isinstance(node.generators[0].iter, ast.Name)
+          and node.generators[0].iter.id == rows)
+
+
+@rule("R10.9", "C10", floor=2)
+def r10_9(ctx):
+  """C3 takes the FIRST row whose head is acceptable: every round scans the
+  rows from the first one, in order, and stops at the first acceptable head."""
+  mod = get_module(ctx, MRO)
+  fn = mod.func("MergeSequences")
+  if not fn.args.args:
+    raise AnalysisError("MergeSequences has no parameter")
+  rows = fn.args.args[0].arg
+  ca = _candidate_assign(fn)
+  cand = ca.targets[0].id
+  scan = mod.parent.get(ca)
+  while scan is not None and not isinstance(scan, (ast.For, ast.While) + _FUNCS):
+    scan = mod.parent.get(scan)
+  if not isinstance(scan, ast.For) or scan.orelse:
+    raise AnalysisError("MergeSequences: the candidate is not chosen in a plain for loop")
+  outer = mod.parent.get(scan)
+  while outer is not None and not isinstance(outer, (ast.For, ast.While) + _FUNCS):
+    outer = mod.parent.get(outer)
+  if not (isinstance(outer, ast.While) and flow.is_const_true(outer.test)):
+    raise AnalysisError("MergeSequences: the candidate scan is not inside `while True`")
+  # rebinding of the rows
+  rebinds = []
+  for n in walk_no_nested(fn):
+    if isinstance(n, (ast.Assign, ast.AugAssign, ast.AnnAssign)):
+      tg = n.targets if isinstance(n, ast.Assign) else [n.target]
+      if any(isinstance(t, ast.Name) and t.id == rows for t in tg):
+        if not (isinstance(n, ast.Assign) and _row_map_of(n.value, rows)):
+          raise AnalysisError(
+              f"MergeSequences: `{src(n)[:60]}` rebinds the rows in a way that "
+              "is not a per-row map")
+        rebinds.append(src(n.value)[:60])
+  # which row the candidate is the head of
+  rowx = ca.value.value
+  it, tgt = scan.iter, scan.target
+  carried = sorted(
+      n for n in flow.names_in(it) - {rows} - _PURE_BUILTINS
+      if any(isinstance(x, ast.Name) and x.id == n and isinstance(x.ctx, ast.Store)
+             for x in ast.walk(outer)))
+  idx = None
+  form = None
+  if isinstance(it, ast.Name) and it.id == rows and isinstance(tgt, ast.Name):
+    form, rowvar = "for row in rows", tgt.id
+  elif isinstance(it, ast.Call) and dotted(it.func) == "enumerate" and \
+      len(it.args) == 1 and dotted(it.args[0]) == rows and \
+      isinstance(tgt, ast.Tuple) and len(tgt.elts) == 2 and \
+      all(isinstance(e, ast.Name) for e in tgt.elts):
+    form, idx, rowvar = "for i, row in enumerate(rows)", tgt.elts[0].id, tgt.elts[1].id
+  elif isinstance(it, ast.Call) and dotted(it.func) == "range" and \
+      len(it.args) == 1 and not it.keywords and \
+      src(it.args[0]) == f"len({rows})" and isinstance(tgt, ast.Name):
+    form, idx, rowvar = "for i in range(len(rows))", tgt.id, None
+  facts = {"scan": src(it), "rows_rebound_by": rebinds}
+  construct = "MergeSequences:scan-from-first-row"
+  if form is None:
+    reorders = any(isinstance(c, ast.Call) and
+                   (dotted(c.func) or "").split(".")[-1] in ("reversed", "sorted")
+                   for c in ast.walk(it)) or any(
+                       isinstance(x, ast.Slice) for x in ast.walk(it)) or any(
+                           isinstance(c, ast.Call) and dotted(c.func) == "range"
+                           and len(c.args) != 1 for c in ast.walk(it))
+    if carried:
+      ctx.bad(construct, MRO, scan.lineno,
+              f"the candidate scan iterates `{src(it)}`, which depends on "
+              f"{carried} carried over from the previous round: C3 restarts "
+              "at the first row after every emitted class (a head rejected "
+              "earlier can have become acceptable), so resuming elsewhere "
+              "yields a different linearisation than CPython's",
+              dict(facts, loop_carried=carried))
+    elif reorders and flow.names_in(it) - _PURE_BUILTINS == {rows}:
+      ctx.bad(construct, MRO, scan.lineno,
+              f"the candidate scan iterates `{src(it)}`: not every row, first "
+              "to last", facts)
+    else:
+      raise AnalysisError(
+          f"MergeSequences: candidate scan `for {src(tgt)} in {src(it)}` not understood")
+  else:
+    # the candidate must be the head of the row the scan is at
+    def is_current_row(e, depth=0):
+      if isinstance(e, ast.Name):
+        if rowvar is not None and e.id == rowvar:
+          return True
+        if depth < 2:
+          defs = [n for n in scan.body if isinstance(n, ast.Assign)
+                  and len(n.targets) == 1 and isinstance(n.targets[0], ast.Name)
+                  and n.targets[0].id == e.id]
+          if len(defs) == 1 and scan.body.index(defs[0]) < _top_index(mod, scan, ca):
+            return is_current_row(defs[0].value, depth + 1)
+        return False
+      return (idx is not None and isinstance(e, ast.Subscript)
+              and isinstance(e.value, ast.Name) and e.value.id == rows
+              and isinstance(e.slice, ast.Name) and e.slice.id == idx)
+    if not is_current_row(rowx):
+      raise AnalysisError(
+          f"MergeSequences: candidate `{src(ca.value)}` is not the head of the "
+          "row the scan is at")
+    facts["form"] = form
+    ctx.ok(construct, MRO, scan.lineno, facts)
+  # after an emission the scan ends (the next round starts at the first row)
+  def gen(unit):
+    return ["live"] if unit is ca else []
+
+  def kill(unit):
+    if unit is scan.iter:
+      return ["live"]
+    if isinstance(unit, ast.Assign) and len(unit.targets) == 1 and \
+        isinstance(unit.targets[0], ast.Name) and unit.targets[0].id == cand \
+        and isinstance(unit.value, ast.Constant) and unit.value.value is None:
+      return ["live"]
+    return None
+  f = flow.flow(fn, gen, kill, mode="may")
+  st = f.after_header.get(scan)
+  if st is None:
+    raise AnalysisError("MergeSequences: candidate scan is unreachable")
+  ctx.check("live" not in st, "MergeSequences:scan-ends-at-first-acceptable-head",
+            MRO, scan.lineno,
+            "some path through the scan body goes on to the next row with an "
+            f"accepted candidate (`{cand}` neither reset to None nor followed "
+            "by break): later rows are then served before the scan restarts "
+            "at the first row", {"candidate_live_at_next_row": "live" in st})
+
+
+def _top_index(mod, loop, node):
+  while node is not None and mod.parent.get(node) is not loop:
+    node = mod.parent.get(node)
+  return loop.body.index(node) if node in loop.body else -1
+
+
+# -- R10.10: no de-duplication of a bases row before the duplicate test ---------------
+
+DEFS = "pytype/pyi/definitions.py"
+CLASSES = "pytype/abstract/_classes.py"
+
+_DEDUP_CALLS = {"set", "frozenset", "fromkeys", "OrderedSet", "Dedup", "unique",
+                "Counter", "OrderedDict"}
+_SEQ_WRAPPERS = {"list", "tuple", "sorted", "reversed", "enumerate", "iter"}
+_MUTATORS = {"add", "append", "extend", "update", "insert", "setdefault",
+             "discard", "remove", "pop", "clear"}
+
+
+class _Dedup(Exception):
+  def __init__(self, why, rel, line):
+    super().__init__(why)
+    self.why, self.rel, self.line = why, rel, line
+
+
+def _only_raises(block):
+  if not block:
+    return False
+  last = block[-1]
+  if isinstance(last, ast.Raise):
+    return True
+  if isinstance(last, ast.If):
+    return _only_raises(last.body) and _only_raises(last.orelse)
+  return False
+
+
+def _contains(root, node):
+  return any(n is node for n in ast.walk(root))
+
+
+class _RowProvenance:
+  """Follows a row of base classes back to where it comes from, through
+  multiplicity-preserving steps only (copies, slices, concatenation,
+  element-wise maps, filters that look at one element at a time, accumulator
+  loops, calls of functions of the package).  A step that can drop a repeated
+  element (set / dict.fromkeys / Dedup / a `seen` test) raises _Dedup."""
+
+  def __init__(self, ctx):
+    self.ctx = ctx
+
+  def fn_locals(self, fn):
+    out = set()
+    a = fn.args
+    for x in a.posonlyargs + a.args + a.kwonlyargs:
+      out.add(x.arg)
+    for n in walk_no_nested(fn):
+      if isinstance(n, ast.Name) and isinstance(n.ctx, ast.Store):
+        out.add(n.id)
+    return out
+
+  def mutated_in(self, root):
+    """Names stored to, or receivers of a mutator call / item store, under root."""
+    out = set()
+    for n in ast.walk(root):
+      if isinstance(n, ast.Name) and isinstance(n.ctx, ast.Store):
+        out.add(n.id)
+      elif isinstance(n, ast.Call) and isinstance(n.func, ast.Attribute) and \
+          n.func.attr in _MUTATORS and isinstance(n.func.value, ast.Name):
+        out.add(n.func.value.id)
+      elif isinstance(n, ast.Subscript) and isinstance(n.ctx, (ast.Store, ast.Del)) \
+          and isinstance(n.value, ast.Name):
+        out.add(n.value.id)
+    return out
+
+  def containers_mutated_in(self, root):
+    out = set()
+    for n in ast.walk(root):
+      if isinstance(n, ast.Call) and isinstance(n.func, ast.Attribute) and \
+          n.func.attr in _MUTATORS and isinstance(n.func.value, ast.Name):
+        out.add(n.func.value.id)
+      elif isinstance(n, ast.Subscript) and isinstance(n.ctx, (ast.Store, ast.Del)) \
+          and isinstance(n.value, ast.Name):
+        out.add(n.value.id)
+      elif isinstance(n, ast.NamedExpr):
+        out.add(n.target.id)
+    return out
+
+  def check_condition(self, mod, fn, test, elem_names, state, what):
+    """A condition deciding whether an element is kept: must not look at the
+    elements kept so far."""
+    state = state - {y.id for x in ast.walk(test) if isinstance(x, ast.comprehension)
+                     for y in ast.walk(x.target) if isinstance(y, ast.Name)}
+    for c in ast.walk(test):
+      if isinstance(c, ast.Compare) and any(
+          isinstance(o, (ast.In, ast.NotIn)) for o in c.ops):
+        for comp in c.comparators:
+          hit = flow.names_in(comp) & state
+          if hit:
+            raise _Dedup(
+                f"`{src(test)[:90]}` keeps an element depending on whether it "
+                f"is already in {sorted(hit)}", mod.rel, test.lineno)
+      if isinstance(c, ast.Call) and isinstance(c.func, ast.Attribute) and \
+          c.func.attr in ("count", "index") and \
+          flow.names_in(c.func.value) & state:
+        raise _Dedup(
+            f"`{src(test)[:90]}` keeps an element depending on its "
+            f"{c.func.attr} in {sorted(flow.names_in(c.func.value) & state)}",
+            mod.rel, test.lineno)
+    other = flow.names_in(test) & state
+    if other:
+      raise AnalysisError(
+          f"{what}: condition `{src(test)[:80]}` reads {sorted(other)}, which "
+          "changes from element to element")
+
+  def prov(self, mod, fn, expr, stmt, what, depth=0):
+    """-> set of root descriptions."""
+    if depth > 12:
+      raise AnalysisError(f"{what}: provenance of the bases row too deep")
+    P = lambda e, st=stmt: self.prov(mod, fn, e, st, what, depth + 1)
+    if isinstance(expr, ast.Name):
+      return self.prov_name(mod, fn, expr.id, stmt, what, depth)
+    if isinstance(expr, ast.Attribute):
+      d = dotted(expr)
+      if d is None:
+        raise AnalysisError(f"{what}: `{src(expr)}` not understood")
+      return {f"attr:{d}"}
+    if isinstance(expr, (ast.Tuple, ast.List)):
+      out = set()
+      for e in expr.elts:
+        if isinstance(e, ast.Starred):
+          out |= P(e.value)
+      if not out or any(not isinstance(e, ast.Starred) for e in expr.elts):
+        out.add(f"literal:{src(expr)[:40]}")
+      return out
+    if isinstance(expr, ast.BinOp) and isinstance(expr.op, ast.Add):
+      return P(expr.left) | P(expr.right)
+    if isinstance(expr, ast.IfExp):
+      return P(expr.body) | P(expr.orelse)
+    if isinstance(expr, ast.BoolOp) and isinstance(expr.op, ast.Or):
+      out = set()
+      for v in expr.values:
+        out |= P(v)
+      return out
+    if isinstance(expr, ast.Subscript) and isinstance(expr.slice, ast.Slice):
+      return P(expr.value)
+    if isinstance(expr, ast.Starred):
+      return P(expr.value)
+    if isinstance(expr, (ast.SetComp, ast.DictComp, ast.Set, ast.Dict)):
+      raise _Dedup(f"`{src(expr)[:80]}` builds a set/dict from the row",
+                   mod.rel, expr.lineno)
+    if isinstance(expr, (ast.ListComp, ast.GeneratorExp)):
+      if len(expr.generators) != 1 or expr.generators[0].is_async:
+        raise AnalysisError(f"{what}: `{src(expr)[:60]}` not understood")
+      g = expr.generators[0]
+      elem = {n.id for n in ast.walk(g.target) if isinstance(n, ast.Name)}
+      # what a per-element condition must not look at: the row itself and
+      # containers that are filled while the function runs (`seen` sets)
+      state = (self.fn_locals(fn) & (self.containers_mutated_in(fn)
+                                     | flow.names_in(g.iter))) - elem
+      for cond in g.ifs:
+        self.check_condition(mod, fn, cond, elem, state, what)
+      return P(g.iter)
+    if isinstance(expr, ast.Call):
+      return self.prov_call(mod, fn, expr, stmt, what, depth)
+    raise AnalysisError(f"{what}: `{src(expr)[:60]}` not understood")
+
+  def prov_name(self, mod, fn, name, stmt, what, depth):
+    defs = _defs(self.ctx, mod, fn)
+    ds = defs.at(name, stmt)
+    if not ds:
+      raise AnalysisError(f"{what}: `{name}` has no reaching definition")
+    out = set()
+    for d in ds:
+      if d == "param":
+        out.add(f"param:{name}")
+      elif isinstance(d, ast.Assign) and len(d.targets) == 1 and \
+          isinstance(d.targets[0], ast.Name):
+        if _is_empty_list(d.value):
+          out |= self.accumulator(mod, fn, name, d, what, depth)
+        else:
+          out |= self.prov(mod, fn, d.value, d, what, depth + 1)
+      elif isinstance(d, ast.Assign) and len(d.targets) == 1 and \
+          isinstance(d.targets[0], ast.Tuple) and isinstance(d.value, ast.Call) \
+          and all(isinstance(e, ast.Name) for e in d.targets[0].elts):
+        k = [e.id for e in d.targets[0].elts].index(name)
+        out |= self.prov_call(mod, fn, d.value, d, what, depth, element=k)
+      elif isinstance(d, ast.AnnAssign) and d.value is not None:
+        out |= self.prov(mod, fn, d.value, d, what, depth + 1)
+      else:
+        raise AnalysisError(
+            f"{what}: `{name}` is bound by `{src(d)[:50] if isinstance(d, ast.AST) else d}`"
+            ", not understood")
+    return out
+
+  def accumulator(self, mod, fn, name, init, what, depth):
+    """`name = []` filled by .append/.extend inside for loops."""
+    out = set()
+    sites = 0
+    for n in walk_no_nested(fn):
+      if isinstance(n, ast.Attribute) and isinstance(n.value, ast.Name) and \
+          n.value.id == name:
+        call = mod.parent.get(n)
+        if n.attr in ("sort", "reverse", "copy", "index", "count"):
+          continue
+        if not (isinstance(call, ast.Call) and call.func is n
+                and n.attr in ("append", "extend") and len(call.args) == 1):
+          raise AnalysisError(
+              f"{what}: accumulator `{name}` is used through .{n.attr}")
+        sites += 1
+        st = mod.enclosing_stmt(call)
+        loops = []
+        cur = mod.parent.get(st)
+        while cur is not None and cur is not fn:
+          if isinstance(cur, (ast.For, ast.While)):
+            loops.append(cur)
+          cur = mod.parent.get(cur)
+        outer = loops[-1] if loops else None
+        if outer is not None and not isinstance(outer, ast.For):
+          raise AnalysisError(f"{what}: `{name}` is filled inside a while loop")
+        elem = set()
+        local_iter = set()
+        for lp in loops:
+          if isinstance(lp, ast.For):
+            elem |= {x.id for x in ast.walk(lp.target) if isinstance(x, ast.Name)}
+        if outer is not None:
+          # targets of inner loops / comprehensions are bound per element
+          for x in ast.walk(outer):
+            if isinstance(x, (ast.For, ast.comprehension)):
+              elem |= {y.id for y in ast.walk(x.target) if isinstance(y, ast.Name)}
+          # names (re)initialised unconditionally at the top of every iteration
+          for top in outer.body:
+            if isinstance(top, ast.Assign) and len(top.targets) == 1 and \
+                isinstance(top.targets[0], ast.Name):
+              local_iter.add(top.targets[0].id)
+          state = ((self.mutated_in(outer) - local_iter - elem) | {name})
+        else:
+          state = {name}
+        for test, pol in flow.guards(mod.parent, st, stop=fn):
+          owner = mod.parent.get(test)
+          if isinstance(owner, ast.If) and owner.test is test and \
+              not _contains(owner, st):
+            exit_block = owner.orelse if pol else owner.body
+            if _only_raises(exit_block):
+              continue
+          if outer is not None and not _contains(outer, test):
+            continue   # decided before the loop: the same for every element
+          self.check_condition(mod, fn, test, elem, state, what)
+        arg = call.args[0]
+        if n.attr == "extend":
+          if flow.names_in(arg) & elem:
+            out.add(f"attr:{dotted(arg) or src(arg)[:40]}")
+          else:
+            out |= self.prov(mod, fn, arg, st, what, depth + 1)
+        if outer is None:
+          out.add(f"literal:{src(arg)[:40]}")
+        else:
+          out |= self.prov(mod, fn, outer.iter, outer, what, depth + 1)
+    if not sites:
+      return {"literal:[]"}
+    # anything that removes elements again is outside the idiom
+    for n in walk_no_nested(fn):
+      if isinstance(n, ast.Delete) and any(
+          isinstance(t, ast.Subscript) and isinstance(t.value, ast.Name)
+          and t.value.id == name for t in n.targets):
+        raise AnalysisError(f"{what}: elements of `{name}` are deleted")
+    return out
+
+  def resolve_callee(self, mod, func):
+    """-> (module, FunctionDef) for f(..) / alias.f(..) inside the package."""
+    if isinstance(func, ast.Name):
+      if func.id in mod.functions:
+        return mod, mod.functions[func.id]
+      target = mod.imports.get(func.id)
+      if target and "." in target:
+        modname, fname = target.rsplit(".", 1)
+        m = self.module_by_name(mod, modname)
+        if m is not None and fname in m.functions:
+          return m, m.functions[fname]
+      return None
+    if isinstance(func, ast.Attribute) and isinstance(func.value, ast.Name):
+      target = mod.imports.get(func.value.id)
+      if target:
+        m = self.module_by_name(mod, target)
+        if m is not None and func.attr in m.functions:
+          return m, m.functions[func.attr]
+    return None
+
+  def module_by_name(self, mod, name):
+    if name.startswith("."):
+      return None
+    rel = name.replace(".", "/") + ".py"
+    if not rel.startswith("pytype/") or not self.ctx.exists(rel):
+      return None
+    return get_module(self.ctx, rel)
+
+  def prov_call(self, mod, fn, call, stmt, what, depth, element=None):
+    d = dotted(call.func) or ""
+    last = d.split(".")[-1] if d else (
+        call.func.attr if isinstance(call.func, ast.Attribute) else "")
+    if last in _DEDUP_CALLS and element is None:
+      raise _Dedup(f"`{src(call)[:80]}` drops repeated elements of the row",
+                   mod.rel, call.lineno)
+    if last in _SEQ_WRAPPERS and len(call.args) >= 1 and element is None and \
+        isinstance(call.func, ast.Name):
+      return self.prov(mod, fn, call.args[0], stmt, what, depth + 1)
+    if last == "zip" and isinstance(call.func, ast.Name) and element is None:
+      out = set()
+      for a in call.args:
+        out |= self.prov(mod, fn, a, stmt, what, depth + 1)
+      return out
+    resolved = self.resolve_callee(mod, call.func)
+    if resolved is None:
+      if isinstance(call.func, ast.Attribute) and not call.args and \
+          not call.keywords and element is None and \
+          dotted(call.func.value) is not None:
+        return {f"call:{src(call)}"}     # e.g. self.bases()
+      raise AnalysisError(f"{what}: call `{src(call)[:60]}` not understood")
+    cmod, callee = resolved
+    if any(isinstance(a, ast.Starred) for a in call.args) or \
+        any(k.arg is None for k in call.keywords):
+      raise AnalysisError(f"{what}: `{src(call)[:60]}` uses */** arguments")
+    params = [a.arg for a in callee.args.posonlyargs + callee.args.args]
+    actual = dict(zip(params, call.args))
+    for k in call.keywords:
+      actual[k.arg] = k.value
+    cwhat = f"{what}>{callee.name}"
+    out = set()
+    rets = [r for r in walk_no_nested(callee) if isinstance(r, ast.Return)]
+    if not rets:
+      raise AnalysisError(f"{cwhat}: no return")
+    for r in rets:
+      v = r.value
+      if v is None:
+        raise AnalysisError(f"{cwhat}: bare return")
+      if element is not None:
+        if not (isinstance(v, ast.Tuple) and len(v.elts) > element):
+          raise AnalysisError(f"{cwhat}: `{src(r)[:50]}` is not a tuple result")
+        v = v.elts[element]
+      for root in self.prov(cmod, callee, v, r, cwhat, depth + 1):
+        if root.startswith("param:"):
+          pn = root.split(":", 1)[1]
+          if pn not in actual:
+            raise AnalysisError(f"{cwhat}: parameter `{pn}` not passed")
+          out |= self.prov(mod, fn, actual[pn], stmt, what, depth + 1)
+        else:
+          out.add(root)
+    return out
+
+
+def _ctor_param_index(mod, cls, pname):
+  init = mod.func(f"{cls}.__init__")
+  names = [a.arg for a in init.args.posonlyargs + init.args.args][1:]
+  if pname not in names:
+    raise AnalysisError(f"{cls}.__init__ has no parameter `{pname}`")
+  return names.index(pname)
+
+
+@rule("R10.10", "C10", floor=5)
+def r10_10(ctx):
+  """On every class-creation path the row of direct bases reaches the duplicate
+  test with its repetitions intact."""
+  rp = _RowProvenance(ctx)
+  sites = []
+  # (1) stub classes: the parser's pytd.Class(bases=..)
+  mod = get_module(ctx, DEFS)
+  fn = mod.func("Definitions.build_class")
+  calls = [c for c in calls_in(fn) if (dotted(c.func) or "").split(".")[-1] == "Class"
+           and any(k.arg == "bases" for k in c.keywords)]
+  if len(calls) != 1:
+    raise AnalysisError("Definitions.build_class: pytd.Class(bases=..) not found")
+  bparams = [a.arg for a in fn.args.args]
+  if "bases" not in bparams:
+    raise AnalysisError("Definitions.build_class has no `bases` parameter")
+  sites.append(("Definitions.build_class:pytd.Class.bases", mod, fn,
+                [k.value for k in calls[0].keywords if k.arg == "bases"][0],
+                mod.enclosing_stmt(calls[0]), {"param:bases"}))
+  # (2) stub classes: PyTDClass.bases() converts pytd_cls.bases
+  cm = get_module(ctx, CLASSES)
+  fn2 = cm.func("PyTDClass.bases")
+  rets = [r for r in walk_no_nested(fn2) if isinstance(r, ast.Return)
+          and r.value is not None]
+  if len(rets) != 1:
+    raise AnalysisError("PyTDClass.bases: expected one return")
+  sites.append(("PyTDClass.bases:return", cm, fn2, rets[0].value, rets[0],
+                {"attr:self.pytd_cls.bases"}))
+  # (3) both engines' classes: compute_mro's tested/merged row
+  mm = get_module(ctx, MIXIN)
+  fn3 = mm.func("Class.compute_mro")
+  merges = calls_in(fn3, suffix="MROMerge")
+  if len(merges) != 1:
+    raise AnalysisError("Class.compute_mro: expected one MROMerge call")
+  defs3 = _defs(ctx, mm, fn3)
+  mstmt = mm.enclosing_stmt(merges[0])
+  what3 = "Class.compute_mro:bases-row"
+  ops = _rows(ctx, mm, fn3, defs3, merges[0].args[0], mstmt, what3)
+  parts = [_classify(ctx, mm, fn3, defs3, e, s, what3) for e, s in ops]
+  brow = [p_ for p_ in parts if p_[0] == "bases"]
+  if len(brow) != 1 or not isinstance(brow[0][2], ast.Name):
+    raise AnalysisError("Class.compute_mro: direct-bases row not recognised")
+  sites.append((what3, mm, fn3, brow[0][2], brow[0][3], {"call:self.bases()"}))
+  # (4) source classes: make_class hands props.bases to the class constructor
+  vm = get_module(ctx, VMU)
+  fn4 = vm.func("make_class")
+  ctor = _construction_calls(vm, fn4, {"InterpreterClass"})
+  if len(ctor) != 1:
+    raise AnalysisError("make_class: InterpreterClass construction not found")
+  i = _ctor_param_index(cm, "InterpreterClass", "bases")
+  barg = ctor[0].args[i] if len(ctor[0].args) > i else None
+  for k in ctor[0].keywords:
+    if k.arg == "bases":
+      barg = k.value
+  if barg is None or any(isinstance(a, ast.Starred) for a in ctor[0].args):
+    raise AnalysisError("make_class: `bases` argument of the constructor not found")
+  sites.append(("make_class:InterpreterClass.bases", vm, fn4, barg,
+                vm.enclosing_stmt(ctor[0]), {"attr:props.bases"}))
+  # (5) source classes: __build_class__ collects the bases from the call
+  fn5 = cm.func("BuildClass.call")
+  props = [c for c in calls_in(fn5, suffix="ClassBuilderProperties")
+           if any(k.arg == "bases" for k in c.keywords)]
+  if len(props) != 1:
+    raise AnalysisError("BuildClass.call: ClassBuilderProperties(bases=..) not found")
+  sites.append(("BuildClass.call:ClassBuilderProperties.bases", cm, fn5,
+                [k.value for k in props[0].keywords if k.arg == "bases"][0],
+                cm.enclosing_stmt(props[0]), {"attr:args.posargs"}))
+  for construct, m, f, expr, stmt, must in sites:
+    try:
+      roots = rp.prov(m, f, expr, stmt, construct)
+    except _Dedup as e:
+      ctx.bad(construct, e.rel, e.line,
+              f"the row of direct bases is de-duplicated on its way to "
+              f"`{src(expr)}`: {e.why}.  A repeated base (class C(A, A)) must "
+              "reach Class.compute_mro's duplicate test unchanged - MROMerge "
+              "itself de-duplicates every row, so once the repetition is gone "
+              "no mro-error can be reported where CPython raises TypeError "
+              "(duplicate base class)", {"dedup": e.why})
+      continue
+    facts = {"row": src(expr), "comes_from": sorted(roots)}
+    ctx.check(must <= roots, construct, m.rel, getattr(stmt, "lineno", 0),
+              f"the row `{src(expr)}` comes from {sorted(roots)}; expected it "
+              f"to derive from {sorted(must)} (the bases as written)", facts)
+
+
 # -- sensitivity suite -----------------------------------------------------------
 
 VARIANTS = [
@@ -1320,4 +1950,70 @@ VARIANTS = [
     {"name": "twin-compute_mro-result-listcomp", "rule": "R10.7", "file": MIXIN, "expect": "silent",
      "old": "return tuple(base2cls[base] for base in mro.MROMerge(newbases))",
      "new": "return tuple([base2cls[b] for b in mro.MROMerge(newbases)])"},
+    # R10.9
+    {"name": "seeded-C10-m1", "rule": "R10.9", "patch": "seeded/C10-m1/patch.diff", "expect": "fire"},
+    {"name": "scan-rows-backwards", "rule": "R10.9", "file": MRO, "expect": "fire",
+     "old": "    for seq in seqs:  # find merge candidates among seq heads",
+     "new": "    for seq in reversed(seqs):  # find merge candidates among seq heads"},
+    {"name": "scan-skips-class-row", "rule": "R10.9", "file": MRO, "expect": "fire",
+     "old": "    for seq in seqs:  # find merge candidates among seq heads",
+     "new": "    for seq in seqs[1:] + seqs[:1]:  # find merge candidates among seq heads"},
+    {"name": "scan-rotates-by-result-length", "rule": "R10.9", "file": MRO, "expect": "fire",
+     "old": "    for seq in seqs:  # find merge candidates among seq heads",
+     "new": "    k = len(res) % len(seqs)\n    for seq in seqs[k:] + seqs[:k]:  # find merge candidates among seq heads"},
+    {"name": "emit-and-keep-scanning", "rule": "R10.9", "file": MRO, "expect": "fire",
+     "old": "            del other_seq[0]\n        break\n",
+     "new": "            del other_seq[0]\n        res.append(cand)\n"},
+    {"name": "scan-over-unknown-helper", "rule": "R10.9", "file": MRO, "expect": "error",
+     "old": "    for seq in seqs:  # find merge candidates among seq heads",
+     "new": "    for seq in _Candidates(seqs):  # find merge candidates among seq heads"},
+    {"name": "twin-scan-enumerate", "rule": "R10.9", "file": MRO, "expect": "silent",
+     "old": "    for seq in seqs:  # find merge candidates among seq heads",
+     "new": "    for _, seq in enumerate(seqs):  # find merge candidates among seq heads"},
+    {"name": "twin-scan-by-index", "rule": "R10.9", "file": MRO, "expect": "silent",
+     "old": "    for seq in seqs:  # find merge candidates among seq heads\n",
+     "new": "    for i in range(len(seqs)):  # find merge candidates among seq heads\n      seq = seqs[i]\n"},
+    {"name": "twin-scan-row-renamed", "rule": "R10.9", "expect": "silent",
+     "edits": [(MRO, "    for seq in seqs:  # find merge candidates among seq heads\n      if not seq:\n        continue\n      cand = seq[0]",
+                "    for row in seqs:  # find merge candidates among seq heads\n      if not row:\n        continue\n      cand = row[0]"),
+               (MRO, "if any(s for s in seqs if cand in s[1:] and s is not seq):",
+                "if any(s for s in seqs if cand in s[1:] and s is not row):")]},
+    # R10.10
+    {"name": "seeded-C10-m2", "rule": "R10.10", "patch": "seeded/C10-m2/patch.diff", "expect": "fire"},
+    {"name": "build_class-bases-through-dict-fromkeys", "rule": "R10.10", "file": DEFS, "expect": "fire",
+     "old": "    bases = [p for p in bases if not isinstance(p, pytd.NothingType)]",
+     "new": "    bases = list(dict.fromkeys(p for p in bases if not isinstance(p, pytd.NothingType)))"},
+    {"name": "get_bases-skips-seen-base", "rule": "R10.10", "file": "pytype/pyi/classdef.py", "expect": "fire",
+     "old": "    elif isinstance(p, pytd.Type):\n      bases_out.append(p)",
+     "new": "    elif isinstance(p, pytd.Type):\n      if p not in bases_out:\n        bases_out.append(p)"},
+    {"name": "get_mro_bases-seen-set", "rule": "R10.10", "file": "pytype/abstract/abstract_utils.py", "expect": "fire",
+     "old": "  mro_bases = []\n  has_user_generic = False\n  for base_var in bases:\n    if not base_var.data:\n      continue",
+     "new": "  mro_bases = []\n  seen = set()\n  has_user_generic = False\n  for base_var in bases:\n    if not base_var.data or id(base_var.data[0]) in seen:\n      continue\n    seen.add(id(base_var.data[0]))"},
+    {"name": "PyTDClass-bases-over-ordered-set", "rule": "R10.10", "file": CLASSES, "expect": "fire",
+     "old": "    for base in self.pytd_cls.bases:\n      converted_base_options = []",
+     "new": "    for base in pytd_utils.OrderedSet(self.pytd_cls.bases):\n      converted_base_options = []"},
+    {"name": "make_class-bases-filter-by-count", "rule": "R10.10", "file": VMU, "expect": "fire",
+     "old": "  bases = _expand_generic_protocols(node, bases, ctx)\n",
+     "new": "  bases = _expand_generic_protocols(node, bases, ctx)\n  bases = [b for i, b in enumerate(bases) if bases.index(b) == i]\n"},
+    {"name": "build_class-bases-through-unknown-helper", "rule": "R10.10", "file": DEFS, "expect": "error",
+     "old": "    bases = [p for p in bases if not isinstance(p, pytd.NothingType)]",
+     "new": "    bases = self._normalize_bases(bases)"},
+    {"name": "twin-build_class-filter-as-loop", "rule": "R10.10", "file": DEFS, "expect": "silent",
+     "old": "    bases = [p for p in bases if not isinstance(p, pytd.NothingType)]",
+     "new": "    kept = []\n    for p in bases:\n      if isinstance(p, pytd.NothingType):\n        continue\n      kept.append(p)\n    bases = kept"},
+    {"name": "twin-build_class-filter-with-local-skip-tuple", "rule": "R10.10", "file": DEFS, "expect": "silent",
+     "old": "    bases = [p for p in bases if not isinstance(p, pytd.NothingType)]",
+     "new": "    dropped = (pytd.NothingType,)\n    unwanted_names = {\"nothing\"}\n    bases = [p for p in bases if not isinstance(p, dropped) and p.name not in unwanted_names]"},
+    {"name": "build_class-seen-set-in-comprehension", "rule": "R10.10", "file": DEFS, "expect": "fire",
+     "old": "    bases = [p for p in bases if not isinstance(p, pytd.NothingType)]",
+     "new": "    seen = set()\n    bases = [p for p in bases if not isinstance(p, pytd.NothingType) and not (p in seen or seen.add(p))]"},
+    {"name": "twin-build_class-filter-generator-tuple", "rule": "R10.10", "file": DEFS, "expect": "silent",
+     "old": "    bases = [p for p in bases if not isinstance(p, pytd.NothingType)]",
+     "new": "    bases = tuple(base for base in bases if not isinstance(base, pytd.NothingType))"},
+    {"name": "twin-make_class-copy-of-bases", "rule": "R10.10", "file": VMU, "expect": "silent",
+     "old": "  bases = _expand_generic_protocols(node, bases, ctx)\n",
+     "new": "  expanded = _expand_generic_protocols(node, bases, ctx)\n  bases = list(expanded)\n"},
+    {"name": "twin-get_mro_bases-skip-flag", "rule": "R10.10", "file": "pytype/abstract/abstract_utils.py", "expect": "silent",
+     "old": "    if not base_var.data:\n      continue\n    # A base class is a Variable.",
+     "new": "    empty = not base_var.data\n    if empty:\n      continue\n    # A base class is a Variable."},
 ]
